@@ -33,6 +33,9 @@ def run(ctx):
     try:
         directed_positions(ctx)
         deep_forwarders(ctx)
+        faulting_probes(ctx)
+        from .. import limits
+        limits.custom_union_probe(ctx)
     except Exception as e:  # noqa: BLE001  (the fixed family could not even be declared on the tree under test)
         ctx.count("directed_positions_failed:" + type(e).__name__)
     batch = valcases.schema_batch(ctx, ctx.n(70, 500), customs=False)
@@ -43,8 +46,14 @@ def run(ctx):
         ctx.cov["smallscope_schemas"] = len(batch)
     cases = []
     for s, w in batch:
-        ws = rebuild.wrap_random(s, ctx.rnd, prob=ctx.rnd.choice([0.2, 0.5, 1.0]))
-        nwrapped = sum(1 for x in rebuild.subschemas(ws) if type(x).__name__ == "FwdSchema")
+        try:
+            ws = rebuild.wrap_random(s, ctx.rnd, prob=ctx.rnd.choice([0.2, 0.5, 1.0]))
+            nwrapped = sum(1 for x in rebuild.subschemas(ws) if type(x).__name__ == "FwdSchema")
+        except Exception as e:  # noqa: BLE001
+            # wrapping is `CustomSchema()(inner)` + `props.update(...)` on the tree under test: it never fails on the unchanged tree
+            ctx.breakage("correspondence", "wrapping the sub-schemas of a schema in a forwarding custom type raised "
+                         + type(e).__name__, schema=repr(s)[:400], exception=repr(e)[:300])
+            continue
         ctx.case(repr(s) + str(nwrapped), nwrapped > 0)
         ctx.count("wrapped_nodes", nwrapped)
         info = dict(plain=repr(s), wrapped_nodes=nwrapped)
@@ -197,6 +206,53 @@ def directed_positions(ctx):
                 elif r1[0] == "ok" and repr(r2[1]) != repr(r1[1]):
                     ctx.violation("substitution result differs (after erasing wrappers) from the plain result",
                                   value=repr(v), plain_result=repr(r1[1]), wrapped_result=repr(r2[1]), **info)
+
+
+def faulting_probes(ctx):
+    """values whose own comparison raises (user code faulting inside the wrapped built-in's `value != expected`), given to a
+    fixed-value leaf that sits where the enclosing union's pre-validation has already stopped at an earlier alternative, at
+    the root and below dict values / typed lists / alias targets: whatever the built-in tree does (a result, or an exception
+    of some class), the tree with the forwarding custom type must do the same"""
+    from .. import custom, hostile
+    leaves = [(schema.int(5), lambda exc: hostile.TouchyInt(7, exc), schema.int),
+              (schema.str("a"), lambda exc: hostile.TouchyStr("b", exc), schema.str)]
+    positions = [
+        ("later any alternative", lambda first, t: schema.any(first, t), lambda v: v),
+        ("later any alternative in a dict value", lambda first, t: schema.dict({"k": schema.any(first, t)}), lambda v: {"k": v}),
+        ("later any alternative in a typed list", lambda first, t: schema.list(schema.any(first, t)), lambda v: [v]),
+        ("later any alternative behind an alias", lambda first, t: schema.alias("A", schema.any(first, t)), lambda v: v),
+        ("only alternative", lambda first, t: schema.any(t), lambda v: v),
+        ("root", lambda first, t: t, lambda v: v),
+        ("list element", lambda first, t: schema.list([first, t]), lambda v: [v, v]),
+    ]
+    for leaf, mkv, first in leaves:
+        for exc in hostile.FAULTS:
+            for pname, mk, mv in positions:
+                try:
+                    s, ws = mk(first, leaf), mk(first, custom.wrap(leaf))
+                except Exception:  # noqa: BLE001
+                    ctx.count("faulting_probes_not_declarable")
+                    continue
+                v = mv(mkv(exc))
+                ctx.count("faulting_probe_cases")
+                info = dict(plain=repr(s), position=pname, wrapped_nodes=1, value=repr(v))
+                r1, r2 = try_subst(s, v), try_subst(ws, v)
+                if r1[0] != r2[0] or (r1[0] == "exc" and r1[1] != r2[1]):
+                    ctx.violation("substitution outcome differs when sub-schemas are wrapped", plain_outcome=repr(r1)[:200],
+                                  wrapped_outcome=repr(r2)[:200], **info)
+                elif r1[0] == "ok" and repr(rebuild.erase_custom(r2[1])) != repr(r1[1]):
+                    ctx.violation("substitution result differs (after erasing wrappers) from the plain result",
+                                  plain_result=repr(r1[1]), wrapped_result=repr(r2[1]), **info)
+
+                def val(t):
+                    try:
+                        return ("ok", sorted(repr((type(e).__name__, repr(e.path))) for e in validate(t, v).get_errors()))
+                    except Exception as e:  # noqa: BLE001
+                        return ("exc", type(e).__name__)
+                v1, v2 = val(s), val(ws)
+                if v1 != v2:
+                    ctx.violation("validation outcome differs when sub-schemas are wrapped", plain_outcome=repr(v1)[:200],
+                                  wrapped_outcome=repr(v2)[:200], **info)
 
 
 def deep_forwarders(ctx):
